@@ -24,6 +24,7 @@ import (
 	"verif/sim/wl/ifacewrap"
 	"verif/sim/wl/methods"
 	"verif/sim/wl/mutexctr"
+	"verif/sim/wl/oncectr"
 	"verif/sim/wl/perworker"
 	"verif/sim/wl/pipeline"
 	"verif/sim/wl/prodcons"
@@ -63,6 +64,7 @@ var templates = []Template{
 	{"condq", condq.Src, condq.Run, []int{2, 2, 2}},
 	{"funcs", funcs.Src, funcs.Run, []int{2, 2}},
 	{"shapes", shapes.Src, shapes.Run, []int{2, 3}},
+	{"oncectr", oncectr.Src, oncectr.Run, []int{2, 3}},
 }
 
 var (
@@ -191,6 +193,7 @@ func RunC08(t *testing.T, tape *Tape) *Outcome {
 		in := drawInstance(tape)
 		insts = append(insts, in)
 		descs = append(descs, fmt.Sprintf("%s%v", in.tpl.Name, in.params))
+		o.FaultFired["template:"+in.tpl.Name]++
 	}
 	o.Desc = fmt.Sprintf("%s %s", c08VariantName[variant], strings.Join(descs, " | "))
 	o.Detail["instances"] = descs
